@@ -121,6 +121,14 @@ CLAIMED.update({
             "§3 C13"),
 })
 
+CLAIMED.update({
+    "C19": ("exploration",
+            "complete enumeration of the finite parts: all (workers,tasks) in [1,32]x[0,256] (quick) / [1,128]x[0,1024] (thorough), all integer (min,max) in [-40,40]^2 x step 1..40, all step counts 0..200 / 0..2000 on a (min,max) alphabet, all non-decreasing lists over {0,1,2,3} of length <=6 with every element/midpoint/+-ulp/outside target, all lists of length 0..4 over 3-letter alphabets of int, double and std::string with every Sub_List index pair (also under ASan), all permutations of dyadic data sets n<=6",
+            "Each helper is compared with its element-wise definition on every member of the stated finite space: shares of Workload_Distribution differ by at most one and span 0..tasks; Range is the half-open range in the stated direction; Linear_Space/Log_Space have the requested count, start at min, end at max within rounding, are strictly monotone and equally spaced (in the logarithm); Locate_Closest_Location returns an index of a nearest element including ties; the list templates agree with ==, concatenation, transposition and the clamped inclusive Sub_List definition; mean/median/variance/standard deviation/weighted average obey permutation, translation and power-of-two scaling laws exactly on dyadic data and reduce to each other.",
+            "Value alphabets are small and fixed; random long lists of the property's quantifier are replaced by pattern lists up to length 200.",
+            "§3 C19"),
+})
+
 NOT_APPLICABLE = {
 }
 
